@@ -47,7 +47,7 @@ ASSUMPTIONS = [
     "the sign of triangle normals is not asserted against the winding; it is pinned only through n(R M + t) = R n(M)",
     "edge_vectors rows are compared with +-(p_j - p_i) of the documented edge (the third row is AC in the code, CA in the "
     "docstring; the property speaks about lengths only)",
-    "uniform scales are positive (0.25..4); rigid motions are proper rotations (Givens products) plus translations |t| <= 50",
+    "uniform scales are positive: 0.25..4 in two thirds of the cases, m*10^k with m in 1..9, k in -6..6 otherwise; rigid motions are proper rotations (Givens products) plus translations |t| <= 50",
 ]
 
 CLS = {"TriMesh": TriMesh, "ColouredTriMesh": ColouredTriMesh, "TexturedTriMesh": TexturedTriMesh}
@@ -503,7 +503,10 @@ def s_geom():
             "mesh": m,
             "angles": draw(gen.rot_angles(d)),
             "t": draw(gen.vec(d, -50, 50)),
-            "s": draw(gen.q(0.25, 4)),
+            # uniform scales: moderate ones, and very small / very large ones ("all uniform scales": a mesh given
+            # in metres and the same mesh in microns are both legal inputs)
+            "s": draw(st.one_of(gen.q(0.25, 4), gen.q(0.25, 4),
+                                st.tuples(gen.q(1, 9, 8), st.integers(-6, 6)).map(lambda t: float("%ge%d" % (t[0], t[1]))))),
         }
 
     return s()
@@ -527,6 +530,11 @@ def c_geom(case, ctx):
     L = float(max(np.abs(P).max(), np.abs(P_rig).max(), np.abs(P_sc).max(), 1.0))
     a_tol = 1e-9 * L * L
     l_tol = 1e-9 * L
+    # tolerances for the scaled copy are relative to ITS size, so that tiny scales are not compared vacuously
+    Lp = float(max(np.abs(P).max(), 1e-12))
+    a_tol_sc = 1e-9 * (s * Lp) ** 2
+    l_tol_sc = 1e-9 * (s * Lp)
+    ctx.event("scale: tiny" if s < 1e-2 else ("scale: huge" if s > 1e2 else "scale: moderate"))
 
     refA = [ref_area(p, tri) for tri in T]
     nondeg = [a >= AREA_MIN for a in refA]
@@ -547,7 +555,7 @@ def c_geom(case, ctx):
         A_rig = np.asarray(m_rig.tri_areas())
         ctx.expect(close(A_rig, A, atol=a_tol, rtol=0), "areas.rigid_motion.%dd" % d, lambda: describe(A_rig, A))
         A_sc = np.asarray(m_sc.tri_areas())
-        ctx.expect(close(A_sc, s * s * A, atol=a_tol, rtol=0), "areas.uniform_scale.%dd" % d, lambda: describe(A_sc, s * s * A))
+        ctx.expect(close(A_sc, s * s * A, atol=a_tol_sc, rtol=0), "areas.uniform_scale.%dd" % d, lambda: describe(A_sc, s * s * A))
 
     # ---- edge lengths
     refE = []
@@ -562,7 +570,7 @@ def c_geom(case, ctx):
         E_rig = np.asarray(m_rig.edge_lengths())
         ctx.expect(close(E_rig, E, atol=l_tol, rtol=0), "edge_lengths.rigid_motion", lambda: describe(E_rig, E))
         E_sc = np.asarray(m_sc.edge_lengths())
-        ctx.expect(close(E_sc, s * E, atol=l_tol, rtol=0), "edge_lengths.uniform_scale", lambda: describe(E_sc, s * E))
+        ctx.expect(close(E_sc, s * E, atol=l_tol_sc, rtol=0), "edge_lengths.uniform_scale", lambda: describe(E_sc, s * E))
         ctx.expect(
             close(float(mesh.mean_edge_length(unique=False)), sum(refE) / len(refE), atol=l_tol, rtol=0),
             "edge_lengths.mean_all",
@@ -577,7 +585,7 @@ def c_geom(case, ctx):
         U_rig = np.sort(np.asarray(m_rig.unique_edge_lengths()))
         ctx.expect(close(U_rig, U, atol=l_tol, rtol=0), "unique_edge_lengths.rigid_motion", lambda: describe(U_rig, U))
         U_sc = np.sort(np.asarray(m_sc.unique_edge_lengths()))
-        ctx.expect(close(U_sc, s * U, atol=l_tol, rtol=0), "unique_edge_lengths.uniform_scale", lambda: describe(U_sc, s * U))
+        ctx.expect(close(U_sc, s * U, atol=l_tol_sc, rtol=0), "unique_edge_lengths.uniform_scale", lambda: describe(U_sc, s * U))
         ctx.expect(
             close(float(mesh.mean_edge_length()), sum(refU) / len(refU), atol=l_tol, rtol=0),
             "edge_lengths.mean_unique",
@@ -645,6 +653,12 @@ def c_geom(case, ctx):
             ctx.event("vertex normals: >=1 vertex asserted unit")
         ctx.expect(not bad_unit, "vertex_normals.not_unit", lambda: "vertices %s norms %s" % (bad_unit, vn[bad_unit]))
         ctx.expect(not bad_orphan, "vertex_normals.orphan_not_zero", lambda: "vertices %s: %s" % (bad_orphan, V[bad_orphan]))
+        # unit vertex normals of the uniformly scaled copy are unit too (and the same directions)
+        V_sc = np.asarray(m_sc.vertex_normals())
+        asserted = [v for v in range(n) if v in used and not tainted[v] and math.sqrt(sum(x * x for x in sums[v])) >= 1e-6]
+        if asserted and V_sc.shape == (n, 3) and all(nondeg):
+            ctx.expect(close(V_sc[asserted], V[asserted], atol=1e-7, rtol=0), "vertex_normals.change_under_scale",
+                       lambda: "scale %r\n%s" % (s, describe(V_sc[asserted], V[asserted])))
 
 
 # ==============================================================================================
